@@ -6,17 +6,24 @@ Import ListNotations.
 Local Open Scope nat_scope.
 
 (* ---- matmul: for every dot-product kernel shared by the backends ---- *)
-Lemma matmul_agree_partial (dot : list N -> list N -> N) b k m :
+Lemma matmul_agree_partial (dot : list N -> list N -> N) mm eo b k m :
   kD k <> 0 -> ok_for b (k_pts k) -> rows_ok k -> m_rows m = kD k -> m_cols m = kD k ->
-  rmap (fun y => visible (observe b y)) (matmul dot cfgR b m (rep b k)) = Ok (visible (obs_core (ref_matmul dot m k))).
+  rmap (fun y => visible (observe b y)) (matmul dot (cfgR mm eo) b m (rep b k)) = Ok (visible (obs_core (ref_matmul dot m k))).
 Proof. intros HD Hok Hrows Hr Hc. unfold cfgR. destruct (bk_eq_dec_np b) as [->|Hb].
   - apply matmul_np_visible; try assumption. lia.
   - now apply matmul_mt_visible. Qed.
-Lemma matmul_numpy_any_width (dot : list N -> list N -> N) k m :
+(* once MaskedTensor.matmul rebuilds the mask from the rows (proposed fix F16a): every non-empty width *)
+Lemma matmul_agree_after_F16a (dot : list N -> list N -> N) eo b k m :
+  kD k <> 0 -> ok_for b (k_pts k) -> rows_ok k -> m_rows m = kD k -> m_cols m <> 0 ->
+  rmap (fun y => visible (observe b y)) (matmul dot (cfgR MmAllExpand eo) b m (rep b k)) = Ok (visible (obs_core (ref_matmul dot m k))).
+Proof. intros HD Hok Hrows Hr Hc. unfold cfgR. destruct (bk_eq_dec_np b) as [->|Hb].
+  - now apply matmul_np_visible.
+  - now apply matmul_mt_expand_visible. Qed.
+Lemma matmul_numpy_any_width (dot : list N -> list N -> N) mm eo k m :
   kD k <> 0 -> rows_ok k -> m_rows m = kD k -> m_cols m <> 0 ->
-  rmap (fun y => visible (observe Np y)) (matmul dot cfgR Np m (rep Np k)) = Ok (visible (obs_core (ref_matmul dot m k))).
+  rmap (fun y => visible (observe Np y)) (matmul dot (cfgR mm eo) Np m (rep Np k)) = Ok (visible (obs_core (ref_matmul dot m k))).
 Proof. intros. now apply matmul_np_visible. Qed.
-Lemma matmul_bad_rows (dot : list N -> list N -> N) b k m : m_rows m <> kD k -> matmul dot cfgR b m (rep b k) = Err Value.
+Lemma matmul_bad_rows (dot : list N -> list N -> N) mm eo b k m : m_rows m <> kD k -> matmul dot (cfgR mm eo) b m (rep b k) = Err Value.
 Proof. intros H. unfold matmul. cbn [rep g_data dshape kshape last_dim last]. apply Nat.eqb_neq in H. rewrite Nat.eqb_sym in H.
   now rewrite H. Qed.
 
@@ -41,7 +48,7 @@ Lemma norm_wrap_err n i e : norm_wrap n i = Err e -> e = Index.
 Proof. unfold norm_wrap. destruct (_ && _); [discriminate|]. destruct (_ && _); [discriminate|]. now intros [= <-]. Qed.
 Lemma norm_gather_out n i : out_of n i -> norm_gather n i = Err Index.
 Proof. intros H. unfold norm_gather, out_of in *. destruct (Z.leb_spec 0 i), (Z.ltb_spec i (Z.of_nat n)); cbn [andb]; try reflexivity; lia. Qed.
-Lemma ix_list_out b n inner idx : inner <> 0 -> Exists (out_of n) idx -> ix_list b n inner idx = Err Index.
+Lemma ix_list_out b eo n inner idx : inner <> 0 -> Exists (out_of n) idx -> ix_list b eo n inner idx = Err Index.
 Proof. intros Hi H. apply Nat.eqb_neq in Hi.
   assert (Hw : rmapM (norm_wrap n) idx = Err Index).
   { apply rmapM_err; [apply norm_wrap_err|]. eapply Exists_impl; [|exact H]. intros i Ho. exists Index. now apply norm_wrap_out. }
@@ -49,12 +56,12 @@ Proof. intros Hi H. apply Nat.eqb_neq in Hi.
   { apply rmapM_err; [apply norm_gather_err|]. eapply Exists_impl; [|exact H]. intros i Ho. exists Index. now apply norm_gather_out. }
   destruct b; cbn [ix_list]; rewrite ?Hi; cbn [andb]; try assumption.
   destruct idx; [inversion H|assumption]. Qed.
-Lemma select_frames_out_of_range b k idx : kP k * (kT k * (kD k * 1)) <> 0 -> Exists (out_of (kF k)) idx ->
-  select_frames cfgR b idx (rep b k) = Err Index.
+Lemma select_frames_out_of_range mm eo b k idx : kP k * (kT k * (kD k * 1)) <> 0 -> Exists (out_of (kF k)) idx ->
+  select_frames (cfgR mm eo) b idx (rep b k) = Err Index.
 Proof. intros Hi H. unfold select_frames, extent, inner0. cbn [rep g_data dshape kshape nth tl fold_right].
   now rewrite ix_list_out. Qed.
-Lemma get_points_out_of_range b k idx : kF k * (kP k * (kD k * 1)) <> 0 -> Exists (out_of (kT k)) idx ->
-  get_points cfgR b idx (rep b k) = Err Index.
+Lemma get_points_out_of_range mm eo b k idx : kF k * (kP k * (kD k * 1)) <> 0 -> Exists (out_of (kT k)) idx ->
+  get_points (cfgR mm eo) b idx (rep b k) = Err Index.
 Proof. intros Hi H. unfold get_points, extent, inner2. cbn [rep g_data dshape kshape nth fold_right].
   now rewrite ix_list_out. Qed.
 
@@ -118,23 +125,23 @@ Proof. exists {| k_fps := 0%N; kF := 1; kP := 1; kT := 1; kD := 1; k_pts := [[[(
 Definition m_32 : matrix := {| m_rows := 3; m_cols := 2; m_el := [[w1; 0]; [0; w1]; [0; 0]]%N |}.
 Lemma matmul_nonsquare_refuted :
   exists k m, kD k <> 0 /\ m_rows m = kD k /\
-    rmap (fun y => (o_shape (observe Torch y), option_map fst (o_valid (observe Torch y)))) (matmul dot32 cfgR Torch m (rep Torch k))
+    rmap (fun y => (o_shape (observe Torch y), option_map fst (o_valid (observe Torch y)))) (matmul dot32 (cfgR MmKeep false) Torch m (rep Torch k))
       = Ok ([2; 1; 2; 2], Some [2; 1; 2; 3]) /\
-    rmap (fun y => (o_shape (observe Np y), option_map fst (o_valid (observe Np y)))) (matmul dot32 cfgR Np m (rep Np k))
+    rmap (fun y => (o_shape (observe Np y), option_map fst (o_valid (observe Np y)))) (matmul dot32 (cfgR MmKeep false) Np m (rep Np k))
       = Ok ([2; 1; 2; 2], Some [2; 1; 2; 2]).
 Proof. exists k_ex, m_32. repeat split; try discriminate; vm_compute; reflexivity. Qed.
 (* framework indexing conventions outside the common domain *)
 Lemma tf_negative_index_refuted :
-  is_ok (select_frames cfgR Np [-1]%Z (rep Np k_ex)) = true /\ is_ok (select_frames cfgR Torch [-1]%Z (rep Torch k_ex)) = true /\
-  select_frames cfgR Tf [-1]%Z (rep Tf k_ex) = Err Index.
+  is_ok (select_frames (cfgR MmKeep false) Np [-1]%Z (rep Np k_ex)) = true /\ is_ok (select_frames (cfgR MmKeep false) Torch [-1]%Z (rep Torch k_ex)) = true /\
+  select_frames (cfgR MmKeep false) Tf [-1]%Z (rep Tf k_ex) = Err Index.
 Proof. repeat split; vm_compute; reflexivity. Qed.
 Lemma tf_empty_index_list_refuted :
-  is_ok (get_points cfgR Np [] (rep Np k_ex)) = true /\ is_ok (get_points cfgR Torch [] (rep Torch k_ex)) = true /\
-  get_points cfgR Tf [] (rep Tf k_ex) = Err Type_.
+  is_ok (get_points (cfgR MmKeep false) Np [] (rep Np k_ex)) = true /\ is_ok (get_points (cfgR MmKeep false) Torch [] (rep Torch k_ex)) = true /\
+  get_points (cfgR MmKeep false) Tf [] (rep Tf k_ex) = Err Type_.
 Proof. repeat split; vm_compute; reflexivity. Qed.
 Lemma torch_negative_step_refuted :
-  is_ok (slice_step cfgR Np (-1) (rep Np k_ex)) = true /\ is_ok (slice_step cfgR Tf (-1) (rep Tf k_ex)) = true /\
-  slice_step cfgR Torch (-1) (rep Torch k_ex) = Err Value.
+  is_ok (slice_step (cfgR MmKeep false) Np (-1) (rep Np k_ex)) = true /\ is_ok (slice_step (cfgR MmKeep false) Tf (-1) (rep Tf k_ex)) = true /\
+  slice_step (cfgR MmKeep false) Torch (-1) (rep Torch k_ex) = Err Value.
 Proof. repeat split; vm_compute; reflexivity. Qed.
 (* TensorFlow reads a subnormal confidence as 0 *)
 Lemma tf_subnormal_confidence_refuted :
@@ -143,6 +150,6 @@ Lemma tf_subnormal_confidence_refuted :
 Proof. exists {| k_fps := 0%N; kF := 1; kP := 1; kT := 1; kD := 1; k_pts := [[[(1%N, [w1])]]] |}. repeat split; try discriminate; vm_compute; reflexivity. Qed.
 (* Torch / TF do not check positions on a body without elements *)
 Lemma unchecked_index_on_empty_body_refuted :
-  exists k, kD k <> 0 /\ select_frames cfgR Np [5]%Z (rep Np k) = Err Index /\ is_ok (select_frames cfgR Torch [5]%Z (rep Torch k)) = true
-                      /\ is_ok (select_frames cfgR Tf [5]%Z (rep Tf k)) = true.
+  exists k, kD k <> 0 /\ select_frames (cfgR MmKeep false) Np [5]%Z (rep Np k) = Err Index /\ is_ok (select_frames (cfgR MmKeep false) Torch [5]%Z (rep Torch k)) = true
+                      /\ is_ok (select_frames (cfgR MmKeep false) Tf [5]%Z (rep Tf k)) = true.
 Proof. exists {| k_fps := 0%N; kF := 2; kP := 0; kT := 3; kD := 2; k_pts := [[]; []] |}. repeat split; try discriminate; vm_compute; reflexivity. Qed.
